@@ -214,6 +214,48 @@ fn gen_c19(tier: &str, rng: &mut Rng) -> Vec<Case> {
         c.slice = "triples_equal_values";
         cases.push(c);
     }
+    // nearest enclosing element: a fixed nest (div > p, table > tr > td/th > em, p) in which a random
+    // subset of elements is coloured through its id; every token takes the colour of the nearest
+    // coloured element around it, in table cells as anywhere else
+    let nn = if tier == "thorough" { 20000 } else { 1500 };
+    for _ in 0..nn {
+        // element k: (parent, open tag name); tokens hang below elements
+        let parents: [i32; 13] = [-1, 0, 0, 2, 3, 3, 2, 6, 7, 6, 0, -1, 5];
+        let html = "<div id=e0><p id=e1>tk1</p><table id=e2><tr id=e3><td id=e4>tk4</td><th id=e5>tk5 <span id=e12>tk12</span></th></tr><tr id=e6><td id=e7>tk7 <em id=e8>tk8</em></td><td id=e9>tk9</td></tr></table><p id=e10>tk10</p></div><p id=e11>tk11</p>";
+        let toks: [(usize, &str); 9] = [(1, "tk1"), (4, "tk4"), (5, "tk5"), (12, "tk12"), (7, "tk7"), (8, "tk8"), (9, "tk9"), (10, "tk10"), (11, "tk11")];
+        let mut col: Vec<Option<u8>> = Vec::new();
+        let mut sheet = String::new();
+        for k in 0..13usize {
+            if rng.chance(1, 2) {
+                let c = 16 + k as u8;
+                col.push(Some(c));
+                let prop = "color";
+                sheet.push_str(&format!("#e{}{{{}:#0100{:02x}}}", k, prop, c));
+            } else {
+                col.push(None);
+            }
+        }
+        let mut nums: Vec<i64> = Vec::new();
+        let mut strs: Vec<String> = Vec::new();
+        for (el, t) in toks.iter() {
+            let mut e = *el as i32;
+            let mut c: i64 = -1;
+            while e >= 0 {
+                if let Some(x) = col[e as usize] {
+                    c = x as i64;
+                    break;
+                }
+                e = parents[e as usize];
+            }
+            strs.push(t.to_string());
+            nums.push(c);
+        }
+        let mut cfg = Cfg { deco: 2, ..Default::default() };
+        cfg.user_css.push(sheet);
+        let w = *rng.pick(&[13usize, 20, 40, 80]);
+        let id = cases.len();
+        cases.push(mk_case(id, 1, cfg, w, html.as_bytes().to_vec(), Some(1), Meta::G { role: "nearest", strs, nums }, "nearest_ancestor"));
+    }
     // random sheets over nested documents: nearest enclosing element with a winning colour
     let nr = if tier == "thorough" { 20000 } else { 1500 };
     for _ in 0..nr {
@@ -234,6 +276,25 @@ fn gen_c19(tier: &str, rng: &mut Rng) -> Vec<Case> {
 fn check_c19(cases: &[Case], results: &[Option<RunResult>]) -> Vec<Violation> {
     let mut v = Vec::new();
     for (i, c) in cases.iter().enumerate() {
+        if c.meta.role() == "nearest" {
+            if let Some(r) = &results[i] {
+                if r.outcome.is_ok() {
+                    let cols = token_colours(&r.outcome);
+                    for (t, want) in c.meta.strs().iter().zip(c.meta.nums().iter()) {
+                        let want = if *want < 0 { None } else { Some((1u8, 0u8, *want as u8)) };
+                        match cols.get(t.as_str()) {
+                            Some((fg, _)) if *fg == want => {}
+                            Some((fg, _)) => {
+                                v.push(viol(i, "a token does not take the colour of its nearest coloured enclosing element", format!("sheet {:?} token {} expected {:?} got {:?}", c.spec.cfg.user_css, t, want, fg), None));
+                                break;
+                            }
+                            None => {}
+                        }
+                    }
+                }
+            }
+            continue;
+        }
         if c.meta.role() != "cascade" {
             continue;
         }
